@@ -370,8 +370,14 @@ func builtinJSONStringifyWalk(ctx builtinJSONStringifyContext, key string, holde
 			// Each level of nesting is a level of Go recursion that enters no scope: count it against
 			// the stack depth limit, or a replacer that wraps its value (function(k, v){ return [v] })
 			// nests without end and overflows the Go stack.
-			if rt := ctx.call.runtime; rt.stackLimit != 0 && rt.scope != nil && rt.scope.depth+len(ctx.stack)-1 >= rt.stackLimit {
-				panic(rt.panicRangeError("Maximum call stack size exceeded"))
+			if rt := ctx.call.runtime; rt.stackLimit != 0 {
+				depth := len(ctx.stack) - 1
+				if rt.scope != nil { // (nil: Value.MarshalJSON / Object.MarshalJSON called with no script running)
+					depth += rt.scope.depth
+				}
+				if depth >= rt.stackLimit {
+					panic(rt.panicRangeError("Maximum call stack size exceeded"))
+				}
 			}
 			ctx.stack = append(ctx.stack, value)
 			defer func() { ctx.stack = ctx.stack[:len(ctx.stack)-1] }()
